@@ -265,7 +265,7 @@ func (c *Ctx) actorNil(fn *ssa.Function, what string) {
 			vias = r.Block().Preds
 		}
 		for _, via := range vias {
-			if !ir.IsNilConst(ir.ResultVia(r, 0, via)) {
+			if !c.definitelyNilError(ir.ResultVia(r, 0, via), 0) {
 				bad = c.P.Pos(r.Pos())
 			}
 		}
@@ -275,4 +275,41 @@ func (c *Ctx) actorNil(fn *ssa.Function, what string) {
 	} else {
 		c.R.Ok("R-actor-nil", key, key, c.P.Pos(fn.Pos()), what+": every return is the nil constant")
 	}
+}
+
+// definitelyNilError: the value is the nil constant, or the result of a repository function all of
+// whose returns are (recursively) definitely nil (an actor body moved into a method).
+func (c *Ctx) definitelyNilError(v ssa.Value, depth int) bool {
+	v = ir.Resolve(v)
+	if ir.IsNilConst(v) {
+		return true
+	}
+	if depth > 4 {
+		return false
+	}
+	switch x := v.(type) {
+	case *ssa.Phi:
+		for _, e := range x.Edges {
+			if !c.definitelyNilError(e, depth+1) {
+				return false
+			}
+		}
+		return true
+	case *ssa.Call:
+		cal := ir.Callee(x).Static
+		if cal == nil || !c.P.IsRepoFunc(cal) || len(cal.Blocks) == 0 || x.Common().Signature().Results().Len() != 1 {
+			return false
+		}
+		rets := ir.Returns(cal)
+		if len(rets) == 0 {
+			return false
+		}
+		for _, r := range rets {
+			if !c.definitelyNilError(r.Results[0], depth+1) {
+				return false
+			}
+		}
+		return true
+	}
+	return false
 }
